@@ -147,13 +147,20 @@ fn gen_tamper_fault(rng: &mut Rng, plan: &PlanA, raw_bias: bool) -> Fault {
 }
 
 pub fn base_plan(inst: Inst, mode: &str, rng: &mut Rng, reports: usize) -> PlanA {
+    let mut inst = inst;
+    crate::inst::pick_xof(rng, &mut inst);
     let reps = gen_reports(&inst, rng, reports);
     let n = inst.n as usize;
+    let mut ctx = pick_ctx(rng);
+    if inst.xof == "hmac" {
+        // XofHmacSha256Aes128 documents a 255-byte limit on the domain-separation tag (8 bytes + context)
+        ctx.truncate(200);
+    }
     PlanA {
         mode: mode.to_string(),
-        ctx: Hx(pick_ctx(rng)),
-        vk: Hx(rng.bytes(32)),
-        confirm: vec![Hx(rng.bytes(32)), Hx(rng.bytes(32))],
+        ctx: Hx(ctx),
+        vk: Hx(rng.bytes(inst.seed_size())),
+        confirm: vec![Hx(rng.bytes(inst.seed_size())), Hx(rng.bytes(inst.seed_size()))],
         reports: reps,
         aps: vec![Vec::new()],
         faults: Vec::new(),
@@ -702,11 +709,20 @@ fn judge_robust<V: prio::vdaf::Vdaf, A: Adapter<V>>(plan: &PlanA, pass: &PassOut
             // the single effective alteration of the run, if it is one the strict oracle covers for THIS job
             let strict_fault: Option<&EffFault> = if pass.effective.len() == 1 && mine.len() == 1 && !mine[0].exempt && mine[0].site.as_ref().map(|s| ad.strict_applies(s, apspec, &r.meas)).unwrap_or(true) { Some(mine[0]) } else { None };
             let label = pass.byz_labels.get(*rep as usize).and_then(|l| l.iter().find(|x| x.ap == *ap));
+            // a round in which EVERY sender's verifier share was replaced by the one it produced for one and the same
+            // other report: the combiner then decides about that other report. No VDAF can be robust against a
+            // wholesale substitution of the aggregators' own traffic (they are assumed to talk over authenticated
+            // channels), so the robust oracle is not applied to such a job.
+            let nagg = v.len();
+            let transplanted = mine.iter().filter_map(|e| e.transplant).any(|(_, round, src)| (0..nagg as u8).all(|j| mine.iter().any(|e| e.transplant == Some((j, round, src)))));
+            if fin && transplanted && record {
+                ctx.counters.inc("robust.not_judged_complete_verifier_share_transplant");
+            }
             if fin {
                 // robust: outputs sum to the truncation of a valid encoding
                 let outs: Vec<Vec<u8>> = v.iter().filter_map(|e| if let JobEnd::Finished(b) = e { Some(b.clone()) } else { None }).collect();
                 let (fs, p) = ad.out_field(apspec);
-                if let Some(sum) = sum_outputs(&outs, fs, p) {
+                if let Some(sum) = sum_outputs(&outs, fs, p).filter(|_| !transplanted) {
                     if !model::output_valid(&plan.inst, &sum, apspec) {
                         out.push((*rep, *ap, format!("{rid}.robust"), format!("all aggregators finished report {rep} (agg param {ap}) but the output shares sum to {:?}, not {}", &sum[..sum.len().min(12)], if plan.inst.class == "poplar1" { "a zero or one-hot 0/1 vector" } else { "the truncation of a valid encoding" })));
                     }
@@ -715,7 +731,7 @@ fn judge_robust<V: prio::vdaf::Vdaf, A: Adapter<V>>(plan: &PlanA, pass: &PassOut
                     }
                 }
                 // Byzantine client with an invalid vector must be rejected
-                if r.evil && r.twin.is_none() && plan.inst.class != "poplar1" {
+                if r.evil && r.twin.is_none() && plan.inst.class != "poplar1" && !transplanted {
                     out.push((*rep, *ap, format!("{rid}.byz"), format!("invalid encoded measurement {:?}… with an honest proof was accepted by all aggregators", &r.meas[..r.meas.len().min(12)])));
                 }
                 if let Some(l) = label {
